@@ -91,3 +91,20 @@ def cases(tier, seed, ctx=None):
                 for segs in ([stream], [stream[:hl - 2], stream[hl - 2:]], [stream[:hl + 1], stream[hl + 1:]], [stream[:hl], stream[hl:]]):
                     segs = [x for x in segs if x]
                     yield mk_case(rng, hd, big, b"", segs, pol, later, rng.choice([0, 0, 1, 99]), env, "huge-declared-" + name)
+    # several connections at once, their heads arriving interleaved (one connection has delivered a long partial head when another
+    # delivers a complete short request; a connection that dies after a partial head, followed by another): every connection is read
+    # on its own (family srvi, a root handler that answers every request)
+    ver3, tab3 = G.oracle(ctx, [b"/a", b"/b"])
+    env3 = G.env_for(ver3, tab3, [b"/a", b"/b"]) + [[]]
+    tree = [[], [], [], 1, 101]
+    for j in range(6 if tier == "quick" else 60):
+        long_head = b"POST /a HTTP/1.1\r\nHost: h\r\n" + b"".join(b"X-%d: %s\r\n" % (i, b"v" * 30) for i in range(rng.range(5, 20))) + b"Content-Length: 3\r\n\r\nabc"
+        short = b"GET /b HTTP/1.1\r\n\r\n"
+        k = rng.range(len(short) + 5, len(long_head) - 8)
+        connA = [G.Construct, G.Feed(long_head[:k]), G.Feed(long_head[k:]), G.Turn]
+        connB = [G.Construct, G.Feed(short), G.Turn]
+        if j % 3 == 2:
+            connA = [G.Construct, G.Feed(long_head[:k]), G.PeerDrop, G.Turn]      # dies after a partial head
+        sched = rng.choice([[0, 1, 0, 1, 0, 1, 0], [0, 0, 1, 1, 0, 1, 0], [1, 0, 0, 1, 1, 0, 0]])
+        # (a connection that dies before its head is complete is never accepted: those cases are compared with the model only)
+        yield ("srvi", [sched, [tree, [connA, connB], env3, [7 if j % 3 == 2 else 6, [[b"/a", 0], [b"/b", 0]]]]], "interleaved-heads")
